@@ -33,4 +33,10 @@ def opUrlPath (b r : String) : String :=
     showText ((unparsePath (joinPath (splitSlash b) (splitSlash r))).toList.map Char.toNat)
   | _, _ => "bad-op"
 
+/-- `rfcpath <merged absolute path>` → RFC 3986 remove_dot_segments -/
+def opRfcPath (m : String) : String :=
+  match parseText m with
+  | some m => showText ((unparsePath (rfcPath (splitSlash m))).toList.map Char.toNat)
+  | none => "bad-op"
+
 end CssVerif.ImportOps
